@@ -35,7 +35,7 @@ const ATOMS: [&str; 46] = [
 const BODIES: [&str; 12] = [".", "(+ . 1)", "(len .)", "(string? .)", "true", "^", "(number? .)", ".nokey", "(stringify .)", "(> . 1)", "(concat . \"x\")", "null"];
 
 /// additional atoms for particular functions (all positions)
-fn extra_atoms(name: &str) -> Vec<&'static str> {
+pub fn extra_atoms(name: &str) -> Vec<&'static str> {
     match name {
         "match" | "extract_regex_group" => vec!["\"a+\"", "\"(a)(b)?\"", "\"[\"", "\"^$\"", "\"é\"", "\"(a)|(b)\"", "\"(x)?(a)\"", "\"(b)*a(é)?\"", "\"(?i)(B)|(?P<n>A)\"", "\"b\"", "\"xa\"", "\"a{2}\"", "\"b{1,3}a\"", "\"a{\"", "\"aab\"", "\"a{2}\""],
         "format_time" => vec!["\"%Y-%m-%d %H:%M:%S\"", "\"%s\"", "\"%.3f|%A\"", "\"%Q\"", "\"%\"", "0", "1701611515", "-1.5", "1e12", "1e18", "86399.5"],
@@ -46,7 +46,7 @@ fn extra_atoms(name: &str) -> Vec<&'static str> {
         "env" => vec!["\"JV_FIXED\"", "\"JV_UNSET\""],
         "parse" => vec!["\"{\\\"a\\\": [1, 2.50]}\"", "\" 7 \"", "\"\\\"x\\\"\""],
         "parse_selection" => vec!["\"(len .)\"", "\".a\"", "\"(+ 1 2)\"", "\"^.\""],
-        "split" => vec!["\",\"", "\"é\"", "\"a\""],
+        "split" => vec!["\",\"", "\"é\"", "\"a\"", "\"aa\"", "\"aaa\"", "\"a--b---c\"", "\"--\"", "\"éé\"", "\"ééé\""],
         "join" => vec!["\"-\"", "\"\""],
         "range" => vec!["5"],
         "get" => vec!["\"a\"", "\"k\""],
@@ -411,7 +411,16 @@ fn long_inputs(ctx: &mut Ctx) {
         let strings = [format!("{body}\u{e9}"), format!("\u{1f603}{body}"), "ab".repeat(n / 2 + 1)[..n].to_string()];
         let list: Vec<String> = (0..n).map(|i| ((i * 7) % n + i % 3).to_string()).collect();
         let list_txt = format!("[{}]", list.join(", "));
-        let obj_txt = format!("{{{}}}", (0..n).map(|i| format!("\"k{}\": {}", n - 1 - i, i)).collect::<Vec<_>>().join(", "));
+        // member names of several kinds (plain integers, digits followed by text, text, non-ASCII), in no order at all
+        let key_of = |j: usize| match j % 6 {
+            0 => format!("{j}"),
+            1 => format!("{j}a"),
+            2 => format!("k{j}"),
+            3 => format!("{j}.5"),
+            4 => format!("{j}-"),
+            _ => format!("\u{e9}{j}"),
+        };
+        let obj_txt = format!("{{{}}}", (0..n).map(|i| format!("\"{}\": {}", key_of(if i % 2 == 0 { i / 2 } else { n - 1 - i / 2 }), i)).collect::<Vec<_>>().join(", "));
         let counts: Vec<usize> = vec![0, 1, n - 1, n, n + 1, 31, 32, 33];
         let recs_txt = format!("[{}]", (0..n).map(|i| format!("{{\"k\": {}, \"id\": {i}}}", (i * 3 + i / 4) % 5)).collect::<Vec<_>>().join(", "));
         for (ii, input) in strings.iter().map(|s| format!("\"{s}\"")).chain([list_txt.clone(), obj_txt.clone(), recs_txt.clone()]).enumerate() {
